@@ -525,7 +525,7 @@ func (e Engine) Run(t *simrt.Tape, c simrt.Case, x *simrt.Ctx) *simrt.Result {
 				return res
 			}
 		}
-		// Patterns whose cost explodes are probed in a memory-limited child process (2 GB, 40 s), one
+		// Patterns whose cost explodes are probed in a memory-limited child process (1 GB, 30 s), one
 		// pattern per process, instead of in a worker: bracket ranges over a large part of the code
 		// space are expanded into one transition per code point.
 		exe, err := os.Executable()
@@ -533,7 +533,7 @@ func (e Engine) Run(t *simrt.Tape, c simrt.Case, x *simrt.Ctx) *simrt.Result {
 			panic(err)
 		}
 		for _, p := range []string{`[a-z]+`, `[\x0100-\x2000]`, `[a-\x0010FFFF]*`, `[\x00010000-\x0010FFFF]`} {
-			cmd := exec.Command("sh", "-c", "ulimit -v 2000000; exec \"$0\" -pattern-probe \"$1\"", exe, p)
+			cmd := exec.Command("sh", "-c", "ulimit -v 1000000; exec \"$0\" -pattern-probe \"$1\"", exe, p)
 			var out bytes.Buffer
 			cmd.Stdout, cmd.Stderr = &out, &out
 			done := make(chan error, 1)
@@ -550,7 +550,7 @@ func (e Engine) Run(t *simrt.Tape, c simrt.Case, x *simrt.Ctx) *simrt.Result {
 						outcome = "out_of_memory"
 					}
 				}
-			case <-time.After(40 * time.Second):
+			case <-time.After(30 * time.Second):
 				cmd.Process.Kill()
 				outcome = "timeout"
 			}
@@ -562,7 +562,7 @@ func (e Engine) Run(t *simrt.Tape, c simrt.Case, x *simrt.Ctx) *simrt.Result {
 					res.Known[id]++
 					continue
 				}
-				res.Violation = &simrt.Violation{Class: cls, Message: fmt.Sprintf("compiling the pattern %q exhausts 2 GB of memory / 40 s (%s): %s", p, outcome, clip(firstLineWith(out.String(), "fatal error")))}
+				res.Violation = &simrt.Violation{Class: cls, Message: fmt.Sprintf("compiling the pattern %q exhausts 1 GB of memory / 30 s (%s): %s", p, outcome, clip(firstLineWith(out.String(), "fatal error")))}
 				return res
 			}
 		}
